@@ -193,6 +193,40 @@ def _rb_add_out(res, ex):
     return outs
 
 
+def _rb_sample_bind():
+    """single (unstacked) buffer: current_size is a scalar; jr.choice is the sampler oracle, its arguments are what is translated"""
+    selfo = _rb_self()
+    selfo.fields["current_size"] = Z("(Z.of_nat (current_size b))")
+    selfo.fields["flatten_axes"] = Prim(lambda ex, n, a, k: Obj({"rewards": Obj({"shape": (Z("(Z.of_nat (b_size b))"),)}, "arr")}, "flat"))
+
+    def choice(ex, n, a, k):
+        if len(a) != 2 or set(k) != {"shape", "replace", "p"}:
+            fail(n, "jr.choice call form")
+        rep = k["replace"]
+        if not (isinstance(rep, Sc) and rep.ty == "B"):
+            fail(n, "replace is not a boolean")
+        return Obj({"total": a[1], "shape": k["shape"], "replace": rep, "p": k["p"]}, "choice")
+    return {"self": selfo, "batch_size": Z("(Z.of_nat batch)"), "key": K("k"), "@jr.choice": Prim(choice),
+            "@jax.tree.map": Prim(lambda ex, n, a, k: Obj({"take_fn": a[0], "tree": a[1], "choice": None}, "gathered")),
+            "@jnp.take": Prim(lambda ex, n, a, k: fail(n, "take outside tree.map"))}
+
+
+def _rb_sample_out(res, ex):
+    if not (isinstance(res, Obj) and res.name == "gathered" and isinstance(res.fields["take_fn"], Closure)):
+        raise TranslateError("sample no longer returns jax.tree.map(take_sample, flattened buffer)")
+    clo = res.fields["take_fn"]
+    ch = clo.scope.get("batch_indices")
+    if not (isinstance(ch, Obj) and ch.name == "choice"):
+        raise TranslateError("the gathered indices are not the result of jr.choice")
+    if "jnp.take(x, batch_indices, axis=0)" not in ast.unparse(clo.node):
+        raise TranslateError("leaves are not gathered with jnp.take(x, batch_indices, axis=0)")
+    shape = ch.fields["shape"]
+    if not (isinstance(shape, tuple) and len(shape) == 1 and term_of(shape[0]) == "(Z.of_nat batch)"):
+        raise TranslateError("the number of sampled indices is not batch_size")
+    return [("population", "Z", term_of(ch.fields["total"], "Z")), ("replace", "bool", term_of(ch.fields["replace"])),
+            ("probs", "list Q", term_of(ch.fields["p"]))]
+
+
 def _rb_cs_out(res, ex):
     return [("value", "Z", term_of(res, "Z"))]
 
@@ -1031,7 +1065,9 @@ KERNELS = {
                    "{Ob Ac Ps : Type} (b : @soa Ob Ac Ps) (x : @trow Ob Ac Ps)", _rb_add_out, carrier="Q",
                    prims={"eqx.tree_at": Prim(_tree_at)}),
             Kernel("current_size", "buffer/replay.py", "ReplayBuffer", "current_size", lambda: {"self": _rb_self()},
-                   "{Ob Ac Ps : Type} (b : @soa Ob Ac Ps)", _rb_cs_out, carrier="Q")],
+                   "{Ob Ac Ps : Type} (b : @soa Ob Ac Ps)", _rb_cs_out, carrier="Q"),
+            Kernel("sample", "buffer/replay.py", "ReplayBuffer", "sample", _rb_sample_bind,
+                   "{Ob Ac Ps : Type} (b : @soa Ob Ac Ps) (batch : nat) (k : kpath)", _rb_sample_out, carrier="Q")],
     "C19": [Kernel("lnext", "callback/logging/callback.py", "LoggingCallbackStepState", "next", _lnext_bind,
                    "(alpha : Q) (s : lstate) (r : Q) (d : bool)", _lnext_out, carrier="Q",
                    prims={"LoggingCallbackStepState": ctor_prim("callback/logging/callback.py", "LoggingCallbackStepState")})],
@@ -1098,7 +1134,7 @@ def coq_text(pid, imports=()):
     return "\n".join(parts)
 
 
-IMPORTS = {"C09": ("Env",), "C10": ("Env",), "C19": ("Logging",), "C06": ("Replay",), "C01": ("Env",), "C13": ("Env",), "C04": ("Env", "OnPolicy"), "C05": ("Env", "OnPolicy", "Replay", "OffPolicy"), "C20": ("Gait",), "C11": ("Env", "Observers"), "C12": ("Env", "OnPolicy")}
+IMPORTS = {"C09": ("Env",), "C10": ("Env",), "C19": ("Logging",), "C06": ("Env", "Replay"), "C01": ("Env",), "C13": ("Env",), "C04": ("Env", "OnPolicy"), "C05": ("Env", "OnPolicy", "Replay", "OffPolicy"), "C20": ("Gait",), "C11": ("Env", "Observers"), "C12": ("Env", "OnPolicy")}
 
 
 def generate(pid, coq_dir: Path):
